@@ -731,7 +731,7 @@ fn lattice_api(out: &mut Out, rng: &mut Rng, pool: &[(ReplicatedValue, &'static 
 /// every `pub fn` / trait impl of the three anchored files, from the source the binary was built
 /// against, and how this harness drives it
 fn coverage(out: &mut Out) {
-    use crate::c06msg::{non_test, read_src, repo_dir, scan_pub_fns};
+    use crate::c06msg::{repo_dir, scan_pub_fns};
     let mut table: BTreeMap<String, String> = BTreeMap::new();
     let files: [(&str, &[&str]); 3] = [
         ("src/replication/lattice.rs", &["ReplicaId", "LamportClock", "LwwRegister", "VectorClock", "GCounter", "PNCounter", "GSet", "UniqueTag", "ORSet"]),
@@ -785,14 +785,22 @@ fn coverage(out: &mut Out) {
             _ => return None,
         })
     };
+    // session 4, round 2: each anchored file is read as a MODULE TREE (the file and the child
+    // modules it declares with `mod x;`): a type moved into `lattice/clock.rs` is the same type
+    let crate_code = crate::modtree::crate_files(&repo_dir());
+    let mut trees = serde_json::Map::new();
+    let mut uncalled: BTreeMap<String, String> = BTreeMap::new();
     for (file, types) in files {
-        let Some(src) = read_src(file) else {
-            out.violation("C07:coverage:source-scan-failed", "an anchored source file could not be read from the tree the harness was built against", json!({"file": file, "tree": repo_dir()}));
-            continue;
-        };
-        let src = non_test(&src).to_string();
-        // kani / test sections of lattice.rs come after the library part
-        let src = match src.find("#[cfg(kani)]") { Some(i) => src[..i].to_string(), None => src };
+        let tree = crate::modtree::tree(&repo_dir(), file);
+        if tree.files.is_empty() || !tree.unresolved.is_empty() {
+            out.violation("C07:coverage:source-scan-failed", "an anchored source file, or a child module it declares with `mod x;`, could not be read from the tree the harness was built against", json!({"file": file, "unresolved": tree.unresolved, "tree": repo_dir()}));
+            if tree.files.is_empty() {
+                continue;
+            }
+        }
+        trees.insert(file.to_string(), json!(tree.file_list()));
+        // library code only (comments, #[cfg(test)] / #[cfg(kani)] items removed)
+        let src = tree.text();
         let mut names: Vec<(String, String)> = Vec::new();
         for ty in types.iter() {
             for f in scan_pub_fns(&src, ty) {
@@ -820,6 +828,14 @@ fn coverage(out: &mut Out) {
                 Some(h) => {
                     table.insert(key, h.to_string());
                 }
+                None if f.chars().next().map(|c| c.is_lowercase()).unwrap_or(false) && crate::modtree::uses_of(&crate_code, &f).is_empty() => {
+                    // a NEW pub fn that nothing in the crate calls or names (no occurrence of the
+                    // identifier in the library code of src/ besides its own definition): it cannot
+                    // reach a merge — listed in the evidence, not a violation
+                    table.insert(key.clone(), "NEW, not driven: no caller anywhere in the crate's library code".into());
+                    uncalled.insert(key.clone(), file.to_string());
+                    out.count("coverage:new-uncalled-pub-fn");
+                }
                 None => {
                     table.insert(key.clone(), "UNACCOUNTED".into());
                     out.violation(&format!("C07:coverage:fn-not-driven:{}", key), "a public function / trait impl of the replicated value lattice exists in the source the harness was built against, but the harness neither drives it nor says why not", json!({"name": key, "file": file}));
@@ -828,6 +844,8 @@ fn coverage(out: &mut Out) {
         }
     }
     out.extra.insert("api_coverage(derived from lattice.rs, crdt_value.rs, replicated_value.rs)".into(), json!(table));
+    out.extra.insert("api_coverage_module_trees(files read per anchored module)".into(), serde_json::Value::Object(trees));
+    out.extra.insert("new_uncalled_pub_fns(listed, not driven)".into(), json!(uncalled));
 }
 
 /// the deprecated merge across kinds (known finding, must be re-found on every run)
